@@ -878,3 +878,113 @@ func (h *hist3) burst(t testingT, src, sched *choice.Source) []Finding {
 	}
 	return nil
 }
+
+// runMesh3Big: a mesh of more than 65536 faces whose vertex index is built at that
+// size, followed by a few additions and removals.  Anything the index does
+// differently for big meshes (bulk allocation, packing several lists into one
+// array) is exercised; after every operation Find is compared with a plain
+// vertex -> faces table for EVERY vertex (cheap: one pass).
+func runMesh3Big(src *choice.Source, st *Stats) (fs []Finding) {
+	k := 182 + src.Intn(6)
+	pt := func(x, y int) model3d.Coord3D { return model3d.XYZ(float64(x), float64(y), 0) }
+	model := map[model3d.Coord3D]map[*tri]bool{}
+	var faces []*tri
+	addModel := func(t *tri) {
+		for _, c := range t {
+			if model[c] == nil {
+				model[c] = map[*tri]bool{}
+			}
+			model[c][t] = true
+		}
+	}
+	for y := 0; y < k; y++ {
+		for x := 0; x < k; x++ {
+			a, b := &tri{pt(x, y), pt(x+1, y), pt(x+1, y+1)}, &tri{pt(x, y), pt(x+1, y+1), pt(x, y+1)}
+			faces = append(faces, a, b)
+			addModel(a)
+			addModel(b)
+		}
+	}
+	m := model3d.NewMeshTriangles(faces)
+	built := src.Chance(3, 4)
+	if built {
+		m.VertexSlice() // the index comes into existence over > 65536 faces
+	}
+	st.NonTrivial = true
+	st.probe("big mesh (more than 65536 faces)")
+	n := 2 + src.Intn(6)
+	var trace []string
+	check := func() []Finding {
+		if m.NumTriangles() != len(faces) {
+			return []Finding{{"mesh3big|count", fmt.Sprintf("after %v: NumTriangles = %d, %d faces are in the mesh", trace, m.NumTriangles(), len(faces))}}
+		}
+		nv := 0
+		for v, want := range model {
+			if len(want) == 0 {
+				continue
+			}
+			nv++
+			got := m.Find(v)
+			ok := len(got) == len(want)
+			for _, t := range got {
+				ok = ok && t != nil && want[t]
+			}
+			if !ok {
+				return []Finding{{"mesh3big|find", fmt.Sprintf("after %v on a mesh of %d faces: Find(%v) returned %d faces, %d of the current faces touch that vertex (or a returned face does not)", trace, len(faces), v, len(got), len(want))}}
+			}
+		}
+		if got := len(m.VertexSlice()); got != nv {
+			return []Finding{{"mesh3big|vertexslice", fmt.Sprintf("after %v: VertexSlice has %d vertices, the current faces have %d", trace, got, nv)}}
+		}
+		return nil
+	}
+	for step := 0; step < n; step++ {
+		switch src.Intn(6) {
+		case 0, 1: // a new face at vertices that existed when the index was built
+			x, y := src.Intn(k), src.Intn(k)
+			t := &tri{pt(x, y), pt(x+1, y+1), pt((x+7)%k, (y+3)%k)}
+			m.Add(t)
+			faces = append(faces, t)
+			addModel(t)
+			trace = append(trace, "Add(at existing vertices)")
+		case 2: // a face with a brand-new vertex
+			t := &tri{pt(src.Intn(k), src.Intn(k)), pt(src.Intn(k), src.Intn(k)), model3d.XYZ(0.5+float64(src.Intn(k)), 0.5, float64(1+step))}
+			m.Add(t)
+			faces = append(faces, t)
+			addModel(t)
+			trace = append(trace, "Add(new vertex)")
+		case 3: // remove a present face
+			i := src.Intn(len(faces))
+			t := faces[i]
+			m.Remove(t)
+			faces[i] = faces[len(faces)-1]
+			faces = faces[:len(faces)-1]
+			for _, c := range t {
+				delete(model[c], t)
+			}
+			trace = append(trace, "Remove(present)")
+		case 4: // duplicate pointer / absent face: both no-ops
+			m.Add(faces[src.Intn(len(faces))])
+			m.Remove(&tri{pt(1, 1), pt(2, 2), pt(3, 5)})
+			trace = append(trace, "Add(duplicate)+Remove(absent)")
+		default: // merge a small mesh in (sharing one face pointer)
+			other := model3d.NewMesh()
+			t := &tri{pt(src.Intn(k), src.Intn(k)), pt(src.Intn(k), src.Intn(k)), pt(src.Intn(k), src.Intn(k))}
+			other.Add(t)
+			other.Add(faces[src.Intn(len(faces))])
+			if src.Chance(1, 2) {
+				other.VertexSlice()
+			}
+			m.AddMesh(other)
+			faces = append(faces, t)
+			addModel(t)
+			trace = append(trace, "AddMesh")
+		}
+		st.Ops++
+		if f := check(); f != nil {
+			return f
+		}
+	}
+	st.Desc = fmt.Sprintf("mesh3big: %d faces, index built first: %v, %v", len(faces), built, trace)
+	return nil
+}
